@@ -154,10 +154,13 @@ def boundary_items(seed, count, shard, nshards, hashmode=0):
     exactly full for N = 7 * 2^k / 8 ... ), and the keyed updates are applied to already
     queued items given with a different payload - among them the newest element, which sits
     in the last map slot and (all priorities tie) in the last heap position."""
-    sizes = [14, 28, 56, 112, 224, 448, 896, 1792, 3584, 4096, 4100][:count]
+    # (size, built by single pushes?)  Above the thresholds the queue is built by From<Vec>
+    # (the extracted model needs quadratic time for n pushes)
+    sizes = [(14, True), (28, True), (56, True), (112, True), (224, True), (448, True), (896, True), (1792, True),
+             (4096, False), (4100, False), (3584, True)][:count]
     out = []
     hid = 0
-    for n in sizes:
+    for n, by_push in sizes:
         for kind in ("pq", "dpq"):
             for tie in (True, False):
                 hid += 1
@@ -165,7 +168,10 @@ def boundary_items(seed, count, shard, nshards, hashmode=0):
                     continue
                 rng = random.Random(seed * 104729 + hid)
                 prio = (lambda k: 5) if tie else (lambda k: (k * 7919) % 23)
-                ops = ["new %s 0" % kind] + ["push 0 %d %d %d" % (k, 1000 + k, prio(k)) for k in range(n)]
+                if by_push:
+                    ops = ["new %s 0" % kind] + ["push 0 %d %d %d" % (k, 1000 + k, prio(k)) for k in range(n)]
+                else:
+                    ops = ["fromvec %s 0 %d %s" % (kind, n, " ".join("%d %d %d" % (k, 1000 + k, prio(k)) for k in range(n)))]
                 last = n - 1
                 probes = [last, 0, n // 2, rng.randrange(n)]
                 pl = 7
